@@ -3,7 +3,7 @@ from sa import e1, guards
 from sa.e1 import G, NE, EQ, BodyCtx
 from sa.match import Dim, Base, Arg, Field, Int, Zero, Pred, contains
 from sa.mir import AnchorError
-from sa.prov import render
+from sa.prov import render, subterms
 
 LEVEL = "other"
 EXPLANATION = (
@@ -382,3 +382,56 @@ def run(ck, prog):
     _run_pre_stride(ck, prog)
     from sa import stride
     stride.run_rule(ck, prog, set(DIMENSION_FILES))
+
+
+# ------------------------------------------------------------------ the stopping test does not divide by a dual objective that can be exactly zero
+_run_pre_gapdiv = run
+
+
+def gap_test_total(ck, prog):
+    """'all y' includes a constant target: after centring y = 0, at w = 0 the primal objective, the dual objective and the
+    gap are all exactly 0 - the optimum has been found - and `gap / dobj < tol` is 0/0 = NaN < tol = false, so the solver runs
+    on into a NaN Newton step and returns Err.  The dual objective is a running maximum that starts at zero: it is 0 exactly
+    in that case.  Rule: the comparison with the tolerance does not have a quotient by that accumulator on one side
+    (`gap <= tol * dobj` decides the same test without dividing)."""
+    rule, inst = "E2-guarded-division", "InteriorPointOptimizer::optimize: the stopping test does not divide by the dual objective (0 for a constant target)"
+    bs = prog.find(r"InteriorPointOptimizer::<T, M>::optimize$")
+    if len(bs) != 1:
+        ck.violation(rule, inst, "optimize", "", expected="anchor exists", found=f"{len(bs)} bodies")
+        return
+    b = bs[0]
+    cx = BodyCtx.of(b)
+    tol_args = {i for i in range(1, b.arg_count + 1) if (b.local_name(i) or "") in ("tol", "tolerance")}
+    is_tol = lambda t: t[0] == "arg" and t[1] in tol_args
+    is_zero = lambda t: t[0] == "call" and t[1].endswith("::zero") and not t[2]
+
+    def starts_at_zero(d):
+        return d[0] == "phi" and any(is_zero(a) for a in d[2])
+    n = 0
+    for c in cx.cmps:
+        for (A, B) in ((c.lhs, c.rhs), (c.rhs, c.lhs)):
+            if not any(is_tol(x) for x in [B] + list(subterms(B))):
+                continue
+            n += 1
+            if A[0] == "call" and A[1].endswith("Div::div") and len(A[2]) == 2 and starts_at_zero(A[2][1]):
+                # guarded?  a zero test of the denominator whose non-zero edge dominates the comparison
+                den = A[2][1]
+                guarded = any(((cc.lhs == den and is_zero(cc.rhs)) or (cc.rhs == den and is_zero(cc.lhs))) and b.dominates(cc.bb, c.bb) and cc.bb != c.bb
+                              for cc in cx.cmps)
+                if not guarded:
+                    ck.violation(rule, inst, b.path, c.where, expected="gap <= tol * dobj (or a zero test of dobj before the division)",
+                                 found=f"`{render(A)[:70]} {c.rel} tol`: the denominator is a running maximum that starts at zero(); for a constant target it is 0 "
+                                       "when the optimum w = 0 is reached and the test is NaN < tol")
+                    continue
+            ck.ok(rule, inst, b.path, c.where, f"`{render(c.lhs)[:40]} {c.rel} {render(c.rhs)[:40]}`")
+    if n == 0:
+        ck.note(f"{inst}: no comparison involving the tolerance argument: no instance")
+
+
+def run(ck, prog):
+    _run_pre_gapdiv(ck, prog)
+    gap_test_total(ck, prog)
+
+
+EXPLANATION += (" The stopping test does not divide the gap by the dual-objective accumulator, which is exactly 0 for a constant "
+                "target (found and fixed: Err for every constant y).")
